@@ -336,6 +336,10 @@ impl Context {
             let mut parent = other.parent();
             while let Some(p) = parent {
                 if p.id == task.id {
+                    // a branch that is still waiting in the queue has not disabled its messages yet
+                    if other.is_kind(NodeKind::Branch) {
+                        other.set_emit_disabled(true);
+                    }
                     other.set_state(TaskState::Skipped);
                     self.emit_task(&other)?;
                     break;
